@@ -198,10 +198,13 @@ func (c18) Gen(seed uint64, run int, tier string) *core.Case {
 		case x < 73:
 			op.Kind = "mplistparts"
 			op.Up = r.IntN(2)
+			if r.IntN(3) == 0 {
+				op.Q = []KV{{K: "max-parts", V: fmt.Sprint(r.IntN(3))}}
+			}
 		case x < 76:
 			op.Kind = "mplistuploads"
 			if r.IntN(2) == 0 {
-				op.Q = []KV{{K: "max-uploads", V: fmt.Sprint(1 + r.IntN(2))}} // a page that may be truncated
+				op.Q = []KV{{K: "max-uploads", V: fmt.Sprint(r.IntN(3))}} // a page that may be truncated (or asks for nothing)
 			}
 		case x < 81:
 			op.Kind = "mpcomplete"
@@ -371,7 +374,7 @@ func (s *c18Side) build(op c18Op, seed uint64) *s3c.Req {
 	case "mppart":
 		return s3c.UploadPart(b, op.Key, upid(), op.Part, body(op.Size+op.Part))
 	case "mplistparts":
-		return s3c.ListParts(b, op.Key, upid())
+		return s3c.ListParts(b, op.Key, upid(), op.Q...)
 	case "mplistuploads":
 		return s3c.ListUploads(b, op.Q...)
 	case "mpcomplete":
